@@ -25,7 +25,7 @@ namespace ZChain.BlockDB
 abbrev Bytes := List Nat
 
 /-- THE SWITCH: does `if lo == hi { break }` leave the `for` loop (repaired) or only the `switch` (pinned code)? -/
-def codeIsFixed : Bool := false
+def codeIsFixed : Bool := true
 
 /-- little-endian encoding of `v` on `w` bytes (`binary.Write(..., binary.LittleEndian, ...)`). -/
 def le : Nat → Nat → Bytes
